@@ -6,7 +6,7 @@ patch="$1"; shift
 cd /repo || exit 2
 if ! git diff --quiet; then echo "repo dirty, refusing"; exit 2; fi
 git apply "$patch" || { echo "patch does not apply"; exit 2; }
-trap 'git -C /repo checkout -- . ' EXIT
+trap 'git -C /repo checkout -- . ; (cd /verif && python3 tools/gen_actual.py >/dev/null 2>&1)' EXIT
 cd /verif
 for p in "$@"; do
   echo "=== $p"
